@@ -215,6 +215,15 @@ def _visit_error(filename: pathlib.Path, e: VisitError) -> Err[FcpError]:
     )
 
 
+def _merge_new(into: v2.FcpV2, other: v2.FcpV2) -> None:
+    """Add to a lookup scope the declarations of `other` it does not hold yet."""
+    for category in ("structs", "enums", "impls", "services", "devices"):
+        have = {id(node) for node in getattr(into, category)}
+        getattr(into, category).extend(
+            node for node in getattr(other, category) if id(node) not in have
+        )
+
+
 class ParserContext:
     """Retains context during parsing."""
 
@@ -222,6 +231,7 @@ class ParserContext:
         self.modules: Dict[str, str] = {}
         self.importing: List[pathlib.Path] = []
         self.imported: Dict[pathlib.Path, Any] = {}
+        self.failed: Dict[pathlib.Path, Any] = {}
 
     def set_module(self, name: str, module: str) -> None:
         """Set the source code module being parsed."""
@@ -504,9 +514,22 @@ class FcpV2Transformer(Transformer):
 
         if filename in self.parser_context.imported:
             # reached along a second path: its declarations are already in the result
-            self.scope.merge(self.parser_context.imported[filename])
+            _merge_new(self.scope, self.parser_context.imported[filename])
             return Ok(())
 
+        if filename in self.parser_context.failed:
+            # it failed once: importing it again along another path cannot end differently
+            return cast(Result[Nil, FcpError], self.parser_context.failed[filename])
+
+        result = self._import_module(tree, filename, source)
+        if result.is_err():
+            self.parser_context.failed[filename] = result
+        return result
+
+    @catch
+    def _import_module(
+        self, tree: ParseTree, filename: pathlib.Path, source: str
+    ) -> Result[Nil, FcpError]:
         try:
             self.error_logger.add_source(str(filename), source)
             fcp_ast = fcp_parser.parse(source)
@@ -542,10 +565,10 @@ class FcpV2Transformer(Transformer):
         self.fcp.merge(module)
 
         # what the module could see is what a file importing it can see
-        self.scope.merge(transformer.scope)
+        _merge_new(self.scope, transformer.scope)
         visible = v2.FcpV2()
         visible.merge(module)
-        visible.merge(transformer.scope)
+        _merge_new(visible, transformer.scope)
         self.parser_context.imported[filename] = visible
 
         return Ok(())
